@@ -289,7 +289,7 @@ fn gen_hrp_char(g: &mut Gen) -> char {
 
 fn gen_name(g: &mut Gen) -> String {
     match g.weighted(&[6, 2, 2, 2]) {
-        0 => g.pick(&["owner", "creator", "alice", "bob", "", " ", "contract0", "Owner"]).to_string(),
+        0 => g.pick(&["owner", "creator", "alice", "bob", "", " ", "contract0", "Owner", " alice", "alice ", "alice\n", "\talice", "  ", "\n"]).to_string(),
         1 => {
             let n = g.below(12);
             (0..n).map(|_| (32 + g.below(95) as u8) as char).collect()
